@@ -837,6 +837,8 @@ type badgerBatch struct {
 
 	// assignedPtrs are the (dirty) node pointers that were given a database pointer by this batch.
 	assignedPtrs []*node.Pointer
+	// rootPtr is the root pointer of the tree that is being committed by this batch.
+	rootPtr *node.Pointer
 
 	mpLock *sync.Mutex
 }
@@ -921,8 +923,14 @@ func (ba *badgerBatch) Commit(root node.Root) error {
 	// If we are not importing a chunk, check if the root already exists.
 	if !ba.chunk {
 		if err := ba.db.checkRootExists(tx, root); err == nil {
-			// No need to do anything since if the hash matches, everything will be identical and we
-			// would just be duplicating work.
+			// No need to store anything since if the hash matches, the contents are identical. The
+			// stored root may however have been reached through other operations, so its nodes can be
+			// stored under other database pointers than the ones the tree of this batch holds (other
+			// indices for the updated nodes, relocated copies of nodes this tree did not touch). Make
+			// the tree refer to the nodes as they are stored before marking its nodes as clean.
+			if err = ba.adoptStoredPointers(root); err != nil {
+				return err
+			}
 			ba.assignedPtrs = nil
 			ba.Reset()
 			return ba.BaseBatch.Commit(root)
@@ -1015,6 +1023,7 @@ func (ba *badgerBatch) Reset() {
 		}
 	}
 	ba.assignedPtrs = nil
+	ba.rootPtr = nil
 
 	ba.writeLog = nil
 	ba.annotations = nil
